@@ -167,6 +167,17 @@ def run_rest(ctx, PM, f, FLAG):
 
     # ---- C12.5 end of stream ends the parser silently
     eof_rules(ctx, "C12.5")
+
+    # ---- C12.6 a request refused for its version (505) is not one of the connection-ending cases: the parser goes on reading (taken from the
+    # version-gate table of C10.3)
+    import rules_C10, engine
+    c2 = engine.Ctx("C12", "quick", facts, 0)
+    try:
+        rules_C10.version_gate(c2)
+        n6 = engine.take_over(ctx, c2.obs, lambda o: o.rule == "C10.3" and o.key.endswith("|version-gate-table"), "C12.6")
+        ctx.floor("C12.6 obligations taken from the version gate", n6, 1)
+    except CheckerError as e:
+        ctx.ob("C12.6", "version-gate", "the version gate of the parser could be evaluated", False, PM.file, str(e))
     return {}
 
 
@@ -234,6 +245,17 @@ def half_rules(ctx):
         br = [(bb, t) for bb, t in cc_new.calls() if call_matches(t, r"BufReader::<R>::with_capacity$|BufReader::<R>::new$")]
         ok = len(bw) == 1 and len(br) == 1 and any(x == ("arg", 1) for x in origin_walk(cc_new.origin(bw[0][1]["args"][-1]))) and any(x == ("arg", 2) for x in origin_walk(cc_new.origin(br[0][1]["args"][-1])))
         ctx.ob("C12.3", "%s|writer-is-first-arg" % cc_new.id, "the connection constructor wraps its first argument as the writer and its second as the reader", ok, "%s:%d" % (cc_new.file, cc_new.line))
+    # when the connection object is destroyed (its parser is done) its fields go in declaration order: the handle on the write half (the writer
+    # builder) must go before any field whose destructor may wait for the client -- the current head reader waits until the last request's
+    # body reader has let go of the socket reader, i.e. until the client has sent the rest of a body nobody reads; with the write handle still
+    # alive during that wait the client sees no end-of-stream after the last response
+    cfields = [x for x in facts.adt(CC)["variants"][0]["fields"]]
+    w_idx = [i for i, x in enumerate(cfields) if x["ty"].startswith(SWB + "<")]
+    blocking = [i for i, x in enumerate(cfields) if x["ty"].startswith(SR + "<")]
+    has_drop = facts.drop_fn(CC) is not None
+    okd = len(w_idx) == 1 and all(w_idx[0] < b for b in blocking) and not has_drop
+    ctx.ob("C12.3", "%s|write-handle-released-first" % CC, "when a connection ends, its handle on the write half is released before anything that may wait for the client (field order = drop order)", okd,
+           facts.adt(CC)["file"], None if okd else "fields: %s" % [x["name"] for x in cfields])
     # shutdown census
     sdrop = method(facts, T_DROP, SERVER, "drop")
     conn_file = facts.adt("connection::Connection")["file"] if "connection::Connection" in facts.adts else None
